@@ -121,6 +121,10 @@ class Term:
         # Now copy the content of t onto self
         self.__dict__.update(t.__dict__)
 
+        # The identity token must belong to self: t may be garbage
+        # collected and its id reused by an unrelated term.
+        self._id = id(self)
+
     def is_svar(self) -> bool:
         return self.ty == Term.SVAR
 
